@@ -73,6 +73,24 @@ example : 0x003c ∈ filterForVersion [0x003c] (3, 3) (3, 3) ∧ 0x003c ∉ filt
     0x1301 ∉ filterForVersion [0x1301] (3, 3) (3, 3) ∧ 0x002f ∉ filterForVersion [0x002f] (3, 4) (3, 4) := by
   decide +kernel
 
+/-- the client's guard on the ServerHello: whatever list the client offered and whatever number a
+    (possibly misbehaving) server puts into its ServerHello, the suite is accepted for the negotiated
+    version only if its registered name defines it for that version -/
+theorem client_rejects_out_of_version_suite :
+    ∀ (offered : List Nat) (s : Nat), ∀ v ∈ allVersions,
+      clientAcceptsSuite offered v s = true → ∃ sem, semOf s = some sem ∧ sem.definedIn v = true := by
+  have h : ∀ s ∈ ssl3Suites ++ tls12Suites ++ tls13Suites, ∀ v ∈ allVersions,
+      versionIncludes v v s = true → ∃ sem, semOf s = some sem ∧ sem.definedIn v = true := by
+    decide +kernel
+  intro offered s v hv hacc
+  have hinc : versionIncludes v v s = true := isIn_filter hacc
+  exact h s (versionIncludes_mem hinc) v hv hinc
+
+example : clientAcceptsSuite [0xc02f, 0x1301] (3, 4) 0x1301 = true ∧
+    clientAcceptsSuite [0xc02f, 0x1301] (3, 4) 0xc02f = false ∧
+    clientAcceptsSuite [0xc02f, 0x1301] (3, 3) 0xc02f = true ∧
+    clientAcceptsSuite [0xc02f, 0x1301] (3, 3) 0x002f = false := by decide +kernel
+
 /-- every negotiable (suite, version, role) is one the name defines for that version -/
 theorem negotiated_only_in_defining_version :
     ∀ t ∈ negotiableTriples, ∃ sem, semOf t.1 = some sem ∧ sem.definedIn t.2.1 = true := by
